@@ -16,7 +16,7 @@ MANIFEST = dict(
          "the lock is held for at most retry x (timeout + 100 ms + pause) (holder_time_bounded, potential-function invariant) and a free lock with parked callers is handed "
          "over before time passes. Tie = trace validation: real GeckoAsyncUdpProtocol.get with seeded concurrent callers of mixed retry/timeout on the virtual-time loop, "
          "scripted replies (prompt / late / never / wrong verb); every observed call, lock hand-off, poll, send, pause end and return must be enabled in the model and "
-         "agree with its send log and results. Gating is checked on the real GeckoAsyncSpa entry points. Session 4: an arrival-order monitor (no later caller is transmitted while an earlier caller has not completed). The lock shape of get() is a theorem over its regenerated suspension skeleton (get_lock_shape: every transmission while the caller holds the lock, the lock taken once per call, for every trace). Also the multi-segment request (GeckoAsyncStructure.get): every attempt consumes retry budget in both gets (every_attempt_consumes_budget over the regenerated skeletons) and the partial-loss pattern (a middle segment lost every time, the final one arriving) is driven on the real code. The answering-pings gate is searched with the real ping loop against a spa that stops answering, after silences of 150 s to two days (a week in the thorough tier), on a virtual clock that also drives time.time and datetime.now. A query whose replies are all lost while the spa keeps sending unsolicited partial updates (the connection`s consumers running); request_clock_is_the_handlers_own.",
+         "agree with its send log and results. Gating is checked on the real GeckoAsyncSpa entry points. Session 4: an arrival-order monitor (no later caller is transmitted while an earlier caller has not completed). The lock shape of get() is a theorem over its regenerated suspension skeleton (get_lock_shape: every transmission while the caller holds the lock, the lock taken once per call, for every trace). Also the multi-segment request (GeckoAsyncStructure.get): every attempt consumes retry budget in both gets (every_attempt_consumes_budget over the regenerated skeletons) and the partial-loss pattern (a middle segment lost every time, the final one arriving) is driven on the real code. The answering-pings gate is searched with the real ping loop against a spa that stops answering, after silences of 150 s to two days (a week in the thorough tier), on a virtual clock that also drives time.time and datetime.now. A query whose replies are all lost while the spa keeps sending unsolicited partial updates (the connection`s consumers running); request_clock_is_the_handlers_own. Session 5: unwrapper_overwrites_its_fields_for_every_datagram (every normal end of GeckoPacketProtocolHandler.handle assigns addressing and content: nothing of the previous datagram survives; everyNormalEndDid_sound), and stray traffic on the real consumers: after an answered query the spa goes quiet for that verb while malformed framings, packets for another client or from another host and garbage arrive - the query reports failure after exactly its retry count; then the spa falls silent under the same strays and the answering-pings gate closes.",
     note="partial: time bounds hold under the fairness hypothesis (no event-loop stall), with one polling interval of slack per attempt; asyncio.Lock FIFO hand-off and "
          "'no pre-emption between awaits' are assumed (exercised by the traces). Known finding D12: the connected/ping gates are evaluated once at call entry, so a call "
          "parked on the lock can transmit after pings have gone stale.",
@@ -481,6 +481,124 @@ def search_chatter(ctx):
                       f"the query finishes within {out.get('bound_s')} s after at most {out.get('retry_count')} transmissions, and later callers (the ping) are served",
                       out)
 
+STRAYS = {
+    # what anybody on the network may send to an unconnected UDP endpoint while a request of ours is outstanding
+    "empty-packet": lambda d: (b"<PACKT></PACKT>", ADDR),
+    "no-sections": lambda d: (b"<PACKT>hello</PACKT>", ("10.9.9.9", 10022)),
+    "missing-datas": lambda d: (b"<PACKT><SRCCN>" + d + b"</SRCCN><DESCN>IOSclient</DESCN></PACKT>", ADDR),
+    "garbled-sections": lambda d: (b"<PACKT><SRCCN>" + d + b"</SRCCN><DATAS>WCGET\x02</DATAS></PACKT>", ADDR),
+    "other-client": lambda d: (rig.frame(d, b"IOSother", b"WCGET\x03"), ADDR),
+    "other-host": lambda d: (rig.frame(d, b"IOSclient", b"WCGET\x03"), ("10.9.9.9", 10022)),
+    "raw-garbage": lambda d: (b"\x00\xffWCGE", ADDR),
+}
+
+
+def search_strays(ctx):
+    """"returns a reply only if one was actually delivered for it", with the connection's long-lived consumers running as `_connect`
+    starts them and every reply FRAMED as the spa frames it: after an answered query, the spa stops answering that verb; while the
+    next query of the same verb is outstanding, stray datagrams arrive (malformed framings, packets for another client, from another
+    host, garbage). The query must report failure after exactly its retry count; then the spa stops answering pings under the
+    same strays and the answering-pings gate must close"""
+    import geckolib.config as cfg
+    from geckolib.driver import GeckoPacketProtocolHandler, GeckoUnhandledProtocolHandler
+    from geckolib.driver.protocol.statusblock import GeckoAsyncPartialStatusBlockProtocolHandler
+    out = {}
+
+    async def body(loop):
+        spa, ft, answering, ping0, entry = await _gate_rig(loop)
+        ping0.cancel()
+        answering[0] = False                     # this scenario frames its own replies
+        proto = spa._protocol
+        desc_id = spa.descriptor.identifier
+        sw = {"ping": True, "wc": True}
+        inner = ft.sendto
+
+        def sendto(data, addr=None):
+            inner(data, addr)
+            if b"APING" in data and sw["ping"]:
+                loop.call_later(0.02, proto.datagram_received, rig.frame(desc_id, b"IOSclient", b"APING\x00"), ADDR)
+            if b"GETWC" in data and sw["wc"]:
+                loop.call_later(0.02, proto.datagram_received, rig.frame(desc_id, b"IOSclient", b"WCGET\x02"), ADDR)
+        ft.sendto = sendto
+        tasks = [asyncio.ensure_future(GeckoUnhandledProtocolHandler().consume(proto)),
+                 asyncio.ensure_future(GeckoPacketProtocolHandler(async_on_handled=spa._async_on_packet).consume(proto)),
+                 asyncio.ensure_future(GeckoAsyncPartialStatusBlockProtocolHandler(proto, async_on_handled=spa._async_on_partial_status_update).consume(proto))]
+        ping = asyncio.ensure_future(spa._ping_loop())
+        await asyncio.sleep(70)
+        T = cfg.GeckoConfig.PROTOCOL_TIMEOUT_IN_SECONDS
+        P = cfg.GeckoConfig.PAUSE_BETWEEN_RETRIES_IN_SECONDS
+        R = cfg.GeckoConfig.PROTOCOL_RETRY_COUNT
+        bound = R * (T + 0.2 + P) + 2.0
+        out["retry_count"], out["bound_s"] = R, round(bound, 2)
+        for kind, mk in STRAYS.items():
+            sw["wc"] = True
+            primed = await asyncio.wait_for(spa.async_get_watercare(), bound + 5)
+            sw["wc"] = False
+
+            async def strays():
+                while True:
+                    await asyncio.sleep(T / 3.0)
+                    proto.datagram_received(*mk(desc_id))
+            st = asyncio.ensure_future(strays())
+            t0, n0 = loop.time(), len(ft.sent)
+            q = asyncio.ensure_future(spa.async_get_watercare())
+            done, pend = await asyncio.wait([q], timeout=bound + 30)
+            st.cancel()
+            res = None
+            if not pend:
+                try:
+                    res = ("returned", q.result())
+                except Exception as e:  # noqa
+                    res = ("raised", type(e).__name__)
+            else:
+                q.cancel()
+            out[kind] = {"primed_with": primed, "result": res, "after_s": round(loop.time() - t0, 2),
+                         "transmissions": len([x for x in ft.sent[n0:] if b"GETWC" in x[1]]),
+                         "consumers_alive": [not t.done() for t in tasks]}
+            await asyncio.sleep(5)
+        # the spa falls silent altogether; the strays go on
+        sw["ping"] = False
+        sw["wc"] = False
+        t_sil = loop.time()
+
+        async def strays2():
+            k = 0
+            kinds = list(STRAYS.values())
+            while True:
+                await asyncio.sleep(1.0)
+                k += 1
+                proto.datagram_received(*kinds[k % len(kinds)](desc_id))
+        st = asyncio.ensure_future(strays2())
+        await asyncio.sleep(6 * cfg.GeckoConfig.PING_FREQUENCY_IN_SECONDS + 10)
+        n0 = len(ft.sent)
+        try:
+            await asyncio.wait_for(spa._on_async_set_value(10, 1, 5), 0.5)
+        except asyncio.TimeoutError:
+            pass
+        out["silent"] = {"silent_for_s": round(loop.time() - t_sil, 1), "is_responding_to_pings": spa.is_responding_to_pings,
+                         "commands_sent": len([x for x in ft.sent[n0:] if b"SPACK" in x[1]])}
+        for t in tasks + [ping, st]:
+            t.cancel()
+    vloop.run_virtual(body)
+    ctx.cov["stray_scenarios"] = out
+    R = out.get("retry_count")
+    for kind in STRAYS:
+        o = out.get(kind)
+        ctx.count("evaluations")
+        if o is None:
+            ctx.violation(f"strays:{kind}:not-run", {"kind": "strays", "stray": kind}, "scenario runs", out)
+            continue
+        if o["primed_with"] != 2:
+            ctx.violation(f"strays:{kind}:answered-query-failed", {"kind": "strays", "stray": kind}, "an answered query returns the spa's answer (2)", o)
+        elif o["result"] != ("returned", None) or o["transmissions"] != R or o["after_s"] > out["bound_s"] or not all(o["consumers_alive"]):
+            ctx.violation(f"strays:{kind}:reply-not-delivered-for-it", {"kind": "strays", "stray": kind},
+                          f"no reply was delivered for the query: it reports failure (None) after {R} transmissions within {out['bound_s']} s, consumers still running", o)
+    o = out.get("silent")
+    ctx.count("evaluations")
+    if o is None or o["is_responding_to_pings"] is not False or o["commands_sent"] != 0:
+        ctx.violation("strays:gate-stays-open-for-a-silent-spa", {"kind": "strays", "stray": "silent"},
+                      "after the spa stops answering pings the gate closes and no command datagram is sent", o)
+
 
 def search_struct_get(ctx):
     """the multi-segment request (GeckoAsyncStructure.get: one STATU answered by a chain of STATV segments, under the same
@@ -559,6 +677,10 @@ def run(ctx):
     search_gate(ctx)
     search_gate_silence(ctx)
     search_chatter(ctx)
+    try:
+        search_strays(ctx)
+    except Exception as e:  # noqa
+        ctx.obligation_broken("harness:strays", f"{type(e).__name__}: {e}")
     search_struct_get(ctx)
     ctx.cov["distinct_nontrivial"] = len(nontrivial)
     ctx.cov["rule"] = ("each run = 1..8 (thorough ..20) concurrent callers of the real protocol.get with seeded arrival times, retry in {1,2,3,10}, timeout in {0.35,1.05,4.05} s (+0.5 ms in the real handler, so that no floating-point tie on a whole millisecond decides a timeout; the model's strict > on whole ms is then exact), "
@@ -604,6 +726,9 @@ def replay(inp):
         search_struct_get(ctx)
     elif inp.get("kind") == "chatter":
         search_chatter(ctx)
+    elif inp.get("kind") == "strays":
+        search_strays(ctx)
+        ctx.violations[:] = [v for v in ctx.violations if v["input"].get("stray") == inp.get("stray")]
     elif inp.get("kind") == "gate-silence":
         search_gate_silence(ctx)
     else:
